@@ -246,6 +246,15 @@ pub fn run(tier: &str) -> i32 {
             rep.violation(format!("{k}/{:?}", specs[i].shape), d, specs[i].to_json());
         }
     }
+    // mixed root directory using the offset shorthand across entry kinds
+    for comp in 1..=4u8 {
+        let f = mixed_shorthand(comp);
+        rep.eval(3);
+        for (k, d) in check_foreign(&f, &serde_json::Map::new()) {
+            rep.violation(format!("{k}/mixed-shorthand"), d, json!({"kind":"mixed-shorthand","comp":comp}));
+        }
+    }
+    rep.count("mixed_shorthand_archives", 4);
     fixtures(&rep);
     rep.force_sample(specs[specs.len() / 2].to_json());
     rep.force_sample(specs[specs.len() / 7].to_json());
@@ -253,9 +262,22 @@ pub fn run(tier: &str) -> i32 {
 }
 
 pub fn replay(case: &Value) -> Vec<String> {
+    if case["kind"].as_str() == Some("mixed-shorthand") {
+        let f = mixed_shorthand(case["comp"].as_u64().unwrap_or(1) as u8);
+        return check_foreign(&f, &serde_json::Map::new()).into_iter().map(|(k, d)| format!("{k}: {d}")).collect();
+    }
     if case["kind"].as_str() == Some("fixture") {
         let rep = Report::new("C03", "quick", "exploration");
-        fixtures(&rep);
+        // mixed root directory using the offset shorthand across entry kinds
+    for comp in 1..=4u8 {
+        let f = mixed_shorthand(comp);
+        rep.eval(3);
+        for (k, d) in check_foreign(&f, &serde_json::Map::new()) {
+            rep.violation(format!("{k}/mixed-shorthand"), d, json!({"kind":"mixed-shorthand","comp":comp}));
+        }
+    }
+    rep.count("mixed_shorthand_archives", 4);
+    fixtures(&rep);
         return if rep.violations_so_far() == 0 { vec![] } else { vec!["fixture comparison still fails".into()] };
     }
     let s = Spec::from_json(case);
